@@ -22,7 +22,8 @@ CkSetups(k) ==
 CkWithCb(k) == { s \o <<CSetCbOp(p)>> : s \in CkSetups(k), p \in Progs(k) } \cup CkSetups(k)
 
 HdrAlgsFor(k) == {"none", "None", "NONE", MatchAlg(k), NONE, "#null", "#int", "#bool", "#arr", "#obj", "#real", "none ", "", "none#0x", "n"}
-SigsFor(k, h) == { EmptySig, Sig("valid", h, k), [Sig("garbage", "HS256", DummyKey) EXCEPT !.cls = "garbage"] }
+PadOnly(n) == [Sig("padonly", "none", DummyKey) EXCEPT !.cls = "padonly"] @@ [tn |-> n]      \* a third segment of '=' only: not empty
+SigsFor(k, h) == { EmptySig, Sig("valid", h, k), [Sig("garbage", "HS256", DummyKey) EXCEPT !.cls = "garbage"], PadOnly(1), PadOnly(2), PadOnly(4) }
 Shapes == {"3seg", "2seg", "4seg", "4segempty", "4segmid", "4segmidempty", "dupsig"}
 TokFor(k, h, sg, sh) == [Tok(h, <<>>, <<>>, sg) EXCEPT !.shape = sh]
 
@@ -34,7 +35,7 @@ CheckerFam ==
 NoKeyScripts ==
   { <<CNewOp, VerifyOp(TokFor(DummyKey, h, sg, sh))>> :
       h \in RealAlgs \cup {"none", "None", "NONE", NONE, "#null", "#int", "#bool", "#arr", "#obj", "#real", "none ", "", "nonee", "non", "none#0x", "none#0HS256", "n"},
-      sg \in {EmptySig, Sig("valid", "HS256", DummyKey)}, sh \in Shapes }
+      sg \in {EmptySig, Sig("valid", "HS256", DummyKey), PadOnly(1), PadOnly(2), PadOnly(3), PadOnly(4), PadOnly(8)}, sh \in Shapes }
   \cup { <<CNewOp, CSetKeyOp("HS256", -1), VerifyOp(TokFor(DummyKey, "none", EmptySig, "3seg"))>> }
 
 \* builder
